@@ -601,11 +601,21 @@ def run(ck, build, only_c04=False):
             continue
         try:
             before = len(ck.obligations)
-            aeadlib.check_cipher(ck, mod, f, label, {"SENS": "R-C03-SENS"})
+            aeadlib.check_cipher(ck, mod, f, label, {"SENS": "R-C03-SENS", "KEYINJ": "R-C03-KEY"})
             ns += len(ck.obligations) - before
         except Broken as e:
             ck.note("sensitivity clause not decided for %s (shape not recognised by the mode summaries): %s" % (f.name, str(e)[:160]))
             ns += 10
+    ck.rule("R-C03-KEY", "premise of 'a modified key or nonce is rejected': in every decrypt function the key words the cipher runs on are an injective function of the key bytes (rank of the "
+            "GF(2)-linear map; a key byte dropped or read twice alike in both directions keeps every relational rule), and every bit of the 12 nonce bytes enters the state in every path class "
+            "of the shared setup function")
+    for ks_ in ("128", "192", "256"):
+        snap_ = ck.snapshot()
+        try:
+            aeadlib.check_setup_function(ck, mod, ks_, label, {"SETUPSENS": "R-C03-KEY"})
+        except Broken as e:
+            ck.rollback(snap_)
+            ck.note("nonce sensitivity of tinyjambu_setup_%s not decided: %s" % (ks_, str(e)[:160]))
     ck.rule("R-C03-ABSORB", "premise of 'modified associated data is rejected': the shared absorb function leaves a state that is an injective function of the bytes of every segment "
             "(word, 1-, 2- and 3-byte tail; rank of the GF(2)-linear map the bytes enter by, or a concrete pair of inputs absorbed alike) - per path class and for every size 0..24 as straight paths")
     aeadlib.absorb_injective_rule(ck, mod, label, "R-C03-ABSORB")
